@@ -243,3 +243,19 @@ V("C05", "twin_stacked_del_append", "silent", [(TP, "        level += 1\n       
 V("C03", "strip_drops_affected", "fire", [(PT, "        if op == Op.UNCHANGED:\n            continue\n        children = strip_unchanged(children)", "        if op in (Op.UNCHANGED, Op.AFFECTED):\n            continue\n        children = strip_unchanged(children)")], rule="C03.R4")
 V("C03", "mark_unchanged_any", "fire", [(PT, "            if all(x[0] == Op.UNCHANGED for x in children):", "            if any(x[0] == Op.UNCHANGED for x in children):")], rule="C03.R4")
 V("C03", "mark_unchanged_unmarked_children", "fire", [(PT, "            children = mark_unchanged(children)\n            if all(x[0] == Op.UNCHANGED for x in children):", "            if all(x[0] == Op.UNCHANGED for x in mark_unchanged(children)):")], rule="C03.R4")
+# ---------------------------------------------------------------- C17 round 3: overlapping sibling default rules
+V("C17", "overlapping_sibling_defaults", "fire", [(IMP, "                # Loopbacks\n                !interface */Loopback[0-9.]+/\n                    no shutdown\n                # Port-Channels",
+                                                   "                !interface */Ethernet1\\/[0-9.\\/]+/\n                    mtu 1500\n                # Loopbacks\n                !interface */Loopback[0-9.]+/\n                    no shutdown\n                # Port-Channels")], rule="C17.R6")
+V("C17", "twin_disjoint_sibling_defaults", "silent", [(IMP, "                # Loopbacks\n                !interface */Loopback[0-9.]+/\n                    no shutdown\n                # Port-Channels",
+                                                       "                !interface */Tunnel[0-9]+/\n                    mtu 1500\n                # Loopbacks\n                !interface */Loopback[0-9.]+/\n                    no shutdown\n                # Port-Channels")])
+# ---------------------------------------------------------------- C15 round 3: merge key depends on the accumulator
+EXE_ = "annet/mesh/executor.py"
+V("C15", "merge_key_counts_known", "fire", [(EXE_, "                    vrf=getattr(pair.connected, \"vrf\", \"\")\n                )", "                    vrf=getattr(pair.connected, \"vrf\", \"\") or next((k.vrf for k in neighbor_peers if k.addr == addr), \"\")\n                )")], rule="C15.R7")
+V("C15", "twin_merge_key_local_first", "silent", [(EXE_, "                peer_key = PeerKey(\n                    fqdn=pair.device.fqdn,\n                    addr=addr,\n                    vrf=getattr(pair.connected, \"vrf\", \"\")\n                )",
+                                                   "                peer_vrf = getattr(pair.connected, \"vrf\", \"\")\n                peer_key = PeerKey(fqdn=pair.device.fqdn, addr=addr, vrf=peer_vrf)")])
+# ---------------------------------------------------------------- C18 round 3: short forms claimed by the first sequence
+DBPY = "annet/annlib/netdev/db.py"
+_ALLOWED_OLD = "    all_variants = collections.Counter()\n    variants_by_seq = {}\n\n    for seq in sequences:\n        variants = _make_seq_variants(seq)\n        all_variants.update(variants)\n        variants_by_seq[seq] = variants\n\n    return {\n        seq: set(variant for variant in variants if all_variants[variant] <= 1)\n        for (seq, variants) in variants_by_seq.items()\n    }\n"
+V("C18", "short_form_first_claimant", "fire", [(DBPY, _ALLOWED_OLD, "    allowed = {}\n    taken = set()\n    for seq in sequences:\n        variants = _make_seq_variants(seq)\n        allowed[seq] = variants - taken\n        taken |= variants\n    return allowed\n")], rule="C18.R4")
+V("C18", "short_form_threshold_two", "fire", [(DBPY, "if all_variants[variant] <= 1)", "if all_variants[variant] <= 2)")], rule="C18.R4")
+V("C18", "twin_short_form_counter_once", "silent", [(DBPY, _ALLOWED_OLD, "    variants_by_seq = {seq: _make_seq_variants(seq) for seq in sequences}\n    claims = collections.Counter(v for vs in variants_by_seq.values() for v in vs)\n    return {seq: {v for v in vs if claims[v] < 2} for (seq, vs) in variants_by_seq.items()}\n")])
